@@ -829,6 +829,50 @@ def check_stride(facts):
                         return True
             return False
 
+        def call_def(l, suffixes):
+            """The unique call defining (the root of) local l if its callee ends with one of `suffixes`."""
+            root = b.root_of(l)[0]
+            ds = [d for d in b.defs().get(root, []) if d[2] == "call"]
+            if len(b.defs().get(root, [])) == 1 and ds and any((ds[0][3].get("callee") or "").endswith(x) for x in suffixes):
+                return ds[0][3]
+            return None
+
+        def through_cast(op):
+            if op.get("k") not in ("copy", "move"):
+                return op
+            d = b.single_def(op["pl"]["l"])
+            if d and d[2] == "assign" and d[3]["rv"]["k"] == "cast":
+                return d[3]["rv"]["op"]
+            return op
+
+        def stepby_aligned(pl, seen):
+            """`for x in (A..=B).step_by(modulo)`: x = (next(iter) as Some).0 with iter = into_iter(step_by(range(A, ..), modulo))
+            and A aligned."""
+            if not any(isinstance(p, dict) and p.get("as") == "Some" for p in pl["p"]):
+                return False
+            nx = call_def(pl["l"], ("Iterator::next",))
+            if not nx or not nx["args"] or nx["args"][0].get("k") not in ("copy", "move"):
+                return False
+            it = call_def(nx["args"][0]["pl"]["l"], ("IntoIterator::into_iter",))
+            src = it["args"][0] if it and it["args"] else None
+            if not src or src.get("k") not in ("copy", "move"):
+                return False
+            sb = call_def(src["pl"]["l"], ("Iterator::step_by",))
+            if not sb or len(sb["args"]) != 2 or not is_mod(through_cast(sb["args"][1])) or sb["args"][0].get("k") not in ("copy", "move"):
+                return False
+            rg = call_def(sb["args"][0]["pl"]["l"], ("RangeInclusive::<Idx>::new", "RangeInclusive::new"))
+            start = None
+            if rg and rg["args"]:
+                start = rg["args"][0]
+            else:
+                d = b.single_def(b.root_of(sb["args"][0]["pl"]["l"])[0])
+                if d and d[2] == "assign" and d[3]["rv"]["k"] == "agg" and "Range" in str(d[3]["rv"].get("adt")):
+                    start = d[3]["rv"]["ops"][0]
+            if not start or start.get("k") not in ("copy", "move"):
+                return False
+            sl = start["pl"]["l"]
+            return aligned(sl if b.local_name(sl) else b.root_of(sl)[0], seen)
+
         def aligned(l, seen=None):
             seen = seen or set()
             if l in seen:
@@ -841,6 +885,8 @@ def check_stride(facts):
                 if df[2] != "assign":
                     return False
                 rv = df[3]["rv"]
+                if rv["k"] == "use" and rv["op"]["k"] in ("copy", "move") and rv["op"]["pl"]["p"] and stepby_aligned(rv["op"]["pl"], seen):
+                    continue
                 if rv["k"] == "use" and rv["op"]["k"] in ("copy", "move") and not rv["op"]["pl"]["p"]:
                     if not aligned(rv["op"]["pl"]["l"], seen):
                         return False
